@@ -596,11 +596,11 @@ func (h *H) readOn() {
 			h.Failf("the application keeps reading in a healthy environment, yet the read routine never comes to wait for input")
 		}
 		h.App.Step()
-		h.MustPoll("read routine at rest", h.ReaderSettled)
+		h.MustPoll("read routine at rest", func() bool { return h.ReaderWaiting() || !h.App.InCall() })
 		if h.ExpireStalledRead() {
 			continue
 		}
-		if h.App.InCall() {
+		if h.ReaderWaiting() {
 			return
 		}
 	}
